@@ -17,6 +17,11 @@
 (*   [t |-> "call",  ent |-> Seq(<<literal, repl, consume>>), prot]   a callable    *)
 (*                       that answers (consume, repl) when the rest starts with     *)
 (*                       literal, None otherwise                                     *)
+(*   [t |-> "nest",  ent |-> Seq(<<literal, inner, consume>>), prot]   a callable     *)
+(*                       taking the encoder itself (u2lobj): when the rest starts     *)
+(*                       with literal it answers (consume, "[" + the encoding of     *)
+(*                       `inner` by the SAME encoder + "]") -- a nested run of the    *)
+(*                       encoder while the outer run is in progress                   *)
 (* prot = "" means "use the encoder's scheme".                                       *)
 EXTENDS Integers, Sequences, FiniteSets, TLC
 
@@ -63,7 +68,7 @@ TryRule(r, s, p) ==
     ELSE LET hits == { k \in DOMAIN r.ent : StartsAt(s, p, r.ent[k][1]) /\ LeftOK(r, r.ent[k], s, p) } IN
          IF hits = {} THEN <<>>
          ELSE LET k == CHOOSE j \in hits : \A m \in hits : j <= m IN
-              << r.ent[k][2], IF r.t = "regex" THEN Len(r.ent[k][1]) ELSE r.ent[k][3] >>
+              << r.ent[k][2], IF r.t = "regex" THEN Len(r.ent[k][1]) ELSE r.ent[k][3] >>      \* ("nest": the inner text)
 
 RECURSIVE FirstMatch(_, _, _, _)
 FirstMatch(rules, i, s, p) ==        \* <<>> or <<rule index, repl, consumed>>
@@ -83,7 +88,11 @@ Enc(cfg, s, p, out, log) ==
     IF m # <<>>
     THEN LET r == cfg.rules[m[1]]
              scheme == IF r.prot # "" THEN r.prot ELSE cfg.scheme
-         IN Enc(cfg, s, p + m[3], out \o Protect(scheme, m[2]), Append(log, <<p, "rule", m[1]>>))
+             \* a nested run has its own output and position; the outer run continues where it was
+             inner == IF r.t = "nest" THEN Enc(cfg, m[2], 1, <<>>, <<>>) ELSE [ok |-> TRUE, out |-> <<>>]
+             repl == IF r.t = "nest" THEN <<91>> \o inner.out \o <<93>> ELSE m[2]
+         IN IF ~inner.ok THEN [ok |-> FALSE, at |-> p, out |-> out, log |-> Append(log, <<p, "rule", m[1]>>)]
+            ELSE Enc(cfg, s, p + m[3], out \o Protect(scheme, repl), Append(log, <<p, "rule", m[1]>>))
     ELSE IF PassThrough(c) THEN Enc(cfg, s, p + 1, Append(out, c), Append(log, <<p, "copy">>))
     ELSE CASE cfg.policy = "keep" -> Enc(cfg, s, p + 1, Append(out, c), Append(log, <<p, "unknown">>))
            [] cfg.policy = "replace" -> Enc(cfg, s, p + 1, out \o REPLACE_TXT, Append(log, <<p, "unknown">>))
@@ -106,6 +115,6 @@ Unmatched(cfg, s) == { p \in 1..Len(s) : ~(cfg.non_ascii_only /\ s[p] < 127) /\ 
                                           /\ ~PassThrough(s[p]) }
 SingleCharRules(cfg) == \A i \in DOMAIN cfg.rules :
                            cfg.rules[i].t = "dict" \/ \A k \in DOMAIN cfg.rules[i].ent :
-                                Len(cfg.rules[i].ent[k][1]) = 1 /\ (cfg.rules[i].t = "call" => cfg.rules[i].ent[k][3] = 1)
+                                Len(cfg.rules[i].ent[k][1]) = 1 /\ (cfg.rules[i].t \in {"call", "nest"} => cfg.rules[i].ent[k][3] = 1)
                                 /\ (cfg.rules[i].t = "regex" => Len(cfg.rules[i].ent[k]) = 2)      \* no assertion about the context
 =============================================================================
